@@ -31,13 +31,22 @@ NJW = {'fermion': ['C', 'Cd', 'JW'], 'shFermion': ['Cd', 'Cdd', 'Cdu', 'Cu', 'JW
 
 def gen_chain(rng, quick, idx):
     """A chain = list of site specs (+ how charges are made common)."""
-    kinds = ['f-none', 'f-N', 'f-parity', 'mixed-none', 'mixed-none', 'mixed-common', 'spinful-N']
+    kinds = ['f-none', 'f-N', 'f-parity', 'mixed-none', 'mixed-none', 'mixed-common', 'spinful-N', 'bf-none', 'bf-common']
     kind = kinds[idx % len(kinds)] if idx < 2 * len(kinds) else rng.choice(kinds)
     fil = [1, 2]
     if kind.startswith('f-'):
         L = rng.randint(2, 6) if idx >= 3 else 6
         cons = {'f-none': None, 'f-N': 'N', 'f-parity': 'parity'}[kind]
         return dict(kind=kind, specs=[dict(cls='fermion', cons=cons, filling=fil)] * L, common=None)
+    if kind.startswith('bf-'):
+        # bosonic and fermionic sites interleaved in one chain / unit cell: the site an operator acts on decides
+        # whether it needs a string, not the position in the term
+        cons = None if kind == 'bf-none' else 'N'
+        B = rng.choice([dict(cls='boson', nmax=1, cons=cons, filling=[0, 1]), dict(cls='boson', nmax=2, cons=cons, filling=[0, 1])] +
+                       ([dict(cls='spinHalf', cons=None)] if cons is None else []))
+        F = dict(cls='fermion', cons=cons, filling=fil)
+        pat = rng.choice([[B, F, F, B, F, F], [B, F, F, B, F], [F, B, F, F, B], [B, B, F, F, B, F]])
+        return dict(kind=kind, specs=[dict(x) for x in pat], common=None if cons is None else 'independent')
     if kind == 'spinful-N':
         L = rng.randint(2, 3)
         cN, cS = rng.choice([('N', 'Sz'), ('parity', None), ('N', 'parity'), ('parity', 'Sz')])
@@ -460,7 +469,7 @@ def check_chain(ctx, res, chain, rng, nprng, use_model=True, first_terms=()):
     psi, vec = random_state(nprng, sites)
     check_mps(ctx, res, chain, sites, orc, psi, vec, rng, multi, ask, records)
     try:
-        check_mps_extras(ctx, res, chain, sites, orc, psi, mps_to_dense(psi), rng)
+        check_mps_extras(ctx, res, chain, sites, orc, psi, mps_to_dense(psi), rng, ask, records)
         check_terms_extras(ctx, res, chain, sites, orc, rng, multi)
     except Exception as e:   # an unexpected exception class in an API path is itself a finding
         import traceback
@@ -627,7 +636,7 @@ def _shift(term, d):
     return [[w, i + d] for w, i in term]
 
 
-def check_mps_extras(ctx, res, chain, sites, orc, psi, vec, rng):
+def check_mps_extras(ctx, res, chain, sites, orc, psi, vec, rng, ask=None, records=None):
     """coverage round: the remaining Jordan-Wigner paths of the MPS API, all against the dense oracle
     (options of correlation_function, term(-list) correlation functions = _term_to_ops_list with JW_from_right
     True/None, expectation_value_terms_sum, apply_local_op with an open string, expectation_value of an odd operator)"""
@@ -747,6 +756,83 @@ def check_mps_extras(ctx, res, chain, sites, orc, psi, vec, rng):
                                  f'{tL}+{tL2} x {tR}: {list(got)} vs dense {want2.tolist()}', case)
             except ValueError as e:
                 res.fail('property', 'chain.term_correlation_function.rejected', f'{tL} x {tR}: {e}', case)
+    # --- offsets on (possibly heterogeneous) chains: the terms are written relative to i_L / j_R / i_offset, the site an
+    # operator really acts on is index + offset; operators are chosen for that site
+    if len(ferm) >= 2 and L >= 3:
+        wsite = [site_words(s) for s in sites]
+
+        def pick(k, odd):
+            ow, ew = wsite[k]
+            ew = [w for w in ew if w != 'Id'] or ew
+            return rng.choice(ow) if (odd and ow) else rng.choice(ew)
+
+        for _ in range(10 if ctx.quick else 80):
+            cut = rng.randint(1, L - 1)                      # left term lives on sites < cut, right term on sites >= cut
+            nL, nR = rng.randint(1, min(2, cut)), rng.randint(1, min(2, L - cut))
+            aL, aR = sorted(rng.sample(range(cut), nL)), sorted(rng.sample(range(cut, L), nR))
+            actual = []
+            for k in aL + aR:
+                actual.append([pick(k, rng.random() < 0.75), k])
+            if sum(word_is_odd(w) for w, _ in actual) % 2:
+                # flip one fermionic-capable entry
+                cand = [x for x in actual if wsite[x[1]][0]]
+                if not cand:
+                    continue
+                x = rng.choice(cand)
+                x[0] = pick(x[1], not word_is_odd(x[0]))
+                if sum(word_is_odd(w) for w, _ in actual) % 2:
+                    continue
+            termL, termR = actual[:nL], actual[nL:]
+            rng.shuffle(termL)
+            rng.shuffle(termR)
+            i_L, j_R = min(aL), min(aR)
+            relL, relR = _shift(termL, -i_L), _shift(termR, -j_R)
+            case = dict(base, what='offset-correlation', term_L=relL, term_R=relR, i_L=i_L, j_R=j_R)
+            res.note_case(case, len({cc.spec_key(x) for x in chain['specs']}) > 1)
+            res.count('chain.extra.offset-correlation')
+            want = ev(termL + termR)[0]
+            tl, tr = [tuple(t) for t in relL], [tuple(t) for t in relR]
+            try:
+                got = {
+                    'term_correlation_function_right': quiet(lambda: psi.term_correlation_function_right(tl, tr, i_L, [j_R]))[0],
+                    'term_correlation_function_left': quiet(lambda: psi.term_correlation_function_left(tl, tr, [i_L], j_R))[0],
+                    'term_list_correlation_function_right': quiet(lambda: psi.term_list_correlation_function_right(
+                        TermList([tl], [0.5]), TermList([tr], [-2.0]), i_L, [j_R]))[0] / (-1.0),
+                }
+            except ValueError as e:
+                res.fail('property', 'chain.term_correlation_function.offset.rejected', f'{relL}@{i_L} x {relR}@{j_R}: {e}', case)
+                continue
+            for name, val in got.items():
+                if abs(val - want) > 1e-9:
+                    res.fail('property', f'chain.{name}.offset.value',
+                             f'{name}(term_L={relL}, term_R={relR}, i_L={i_L}, j_R={j_R}) = {val}, dense Jordan-Wigner value '
+                             f'{want} (sites {[c["cls"] for c in chain["specs"]]})', case)
+                    break
+            # the same two terms through _term_to_ops_list with an offset: strings compared with the Lean model
+            if ask is not None:
+                for rel, off, fr in ((relR, j_R, False), (relL, i_L, True), (relL, i_L, None)):
+                    rec = dict(case=dict(base, what='t2o-offset', term=rel, i_offset=off, from_right=fr), term=rel)
+                    records.append(rec)
+                    rec['t2o'] = impl_t2o(psi, rel, True, off, fr)
+                    ask('t2o', len(records) - 1, {'k': 't2o', 'term': rel, 'i_offset': off, 'from_right': fr})
+            # apply_local_term with i_offset
+            whole = termL + termR
+            rng.shuffle(whole)
+            off = min(i for _, i in whole)
+            ref_m, par = orc.term(whole)
+            if par:
+                continue
+            phi = psi.copy()
+            try:
+                quiet(lambda: phi.apply_local_term([tuple(t) for t in _shift(whole, -off)], i_offset=off, canonicalize=False))
+            except ValueError as e:
+                if 'destroys state' not in str(e):
+                    res.fail('property', 'chain.apply_local_term.offset.rejected', f'{whole} (i_offset={off}): {e}', case)
+                continue
+            if not np.all(np.abs(mps_to_dense(phi) - ref_m @ vec) <= 1e-9):
+                res.fail('property', 'chain.apply_local_term.offset.value',
+                         f'apply_local_term({_shift(whole, -off)}, i_offset={off}) deviates from the dense Jordan-Wigner image by '
+                         f'{np.abs(mps_to_dense(phi) - ref_m @ vec).max():.3g}', dict(case, term=_shift(whole, -off), i_offset=off))
     # expectation_value_terms_sum
     if len(ferm) >= 2:
         terms, strengths, want = [], [], 0.
